@@ -90,7 +90,22 @@ func ruleR15g(c *Ctx, rule string) {
 	}
 	c.seeFn(remove)
 	written := map[string]bool{}
-	for _, b := range remove.Blocks {
+	// Remove and the methods of the two types it is made of
+	parts := []*ssa.Function{remove}
+	seenPart := map[*ssa.Function]bool{remove: true}
+	for i := 0; i < len(parts) && i < 12; i++ {
+		allCalls(parts[i], func(ci ssa.CallInstruction) {
+			if g := staticCallee(ci); g != nil && fnPkgPath(origin(g)) == pkgCU && len(g.Blocks) > 0 && !seenPart[g] {
+				switch recvTypeName(origin(g)) {
+				case "LinkedListNode", "LinkedList":
+					seenPart[g] = true
+					parts = append(parts, g)
+				}
+			}
+		})
+	}
+	for _, part := range parts {
+	for _, b := range part.Blocks {
 		for _, ins := range b.Instrs {
 			st, ok := ins.(*ssa.Store)
 			if !ok {
@@ -118,6 +133,7 @@ func ruleR15g(c *Ctx, rule string) {
 			}
 		}
 	}
+	}
 	var names []string
 	for k := range want {
 		names = append(names, k)
@@ -134,14 +150,18 @@ func ruleR15g(c *Ctx, rule string) {
 	sort.Slice(finders, func(i, j int) bool { return origName(finders[i]) < origName(finders[j]) })
 	nF := 0
 	for _, fn := range finders {
-		// only the functions that look for the node themselves (a loop); wrappers delegate
-		hasLoop := false
+		// wrappers that return what another finder returns are decided there
+		delegates := false
 		for _, b := range fn.Blocks {
-			if blockInLoop(b) {
-				hasLoop = true
+			if ret, ok := b.Instrs[len(b.Instrs)-1].(*ssa.Return); ok && len(ret.Results) == 1 {
+				if call, ok := ret.Results[0].(*ssa.Call); ok {
+					if g := staticCallee(call); g != nil && finderOf[origName(g)] != nil && origin(g) != origin(fn) {
+						delegates = true
+					}
+				}
 			}
 		}
-		if !hasLoop {
+		if delegates {
 			continue
 		}
 		nF++
